@@ -31,6 +31,20 @@ def _find_line_node(fn, cn, line_text, shared_inline=False):
 def r1_order(ctx):
     ctx.rule("C17.R1", "results keyed by the input identifiers in input order", 4)
     ix = ctx.ix
+    # the cohort keeps the order it was given in: nothing between the caller's table and the algorithm asks the reader to sort the individuals
+    gd = ix.func("leaspy.models.base", "BaseModel._get_dataset", "C17.R1")
+    n_conv = 0
+    for f_ in ix.iter_funcs():
+        if not f_.mod.startswith(("leaspy.models", "leaspy.algo", "leaspy.api")):
+            continue
+        for c in ast.walk(f_.node):
+            if isinstance(c, ast.Call) and any(k.arg == "sort_index" for k in c.keywords):
+                v = kwarg(c, "sort_index")
+                n_conv += 1
+                ctx.check(U(v) == "False", "C17.R1", f_, c, "the reader is not asked to sort the individuals", f"`{U(c)[:70]}` sorts the table by identifier before the algorithm sees it: "
+                          "the estimates come back in sorted order, not in the order the subjects were given", construct="cohort order kept on ingestion")
+    conv = [c for c in ast.walk(gd.node) if isinstance(c, ast.Call) and U(c.func).endswith("from_dataframe")]
+    ctx.anchor(bool(conv), "C17.R1", gd, gd.node, "a table is converted by Data.from_dataframe with its default (unsorted) reading", "conversion of a table in _get_dataset", construct="table conversion")
     f = ix.func(SC, "ScipyMinimizeAlgorithm._compute_individual_parameters", "C17.R1")
     cn = Canon(f.node)
     L = cn.lines(False, True)
